@@ -37,7 +37,7 @@ pub static PROP: Prop = Prop {
         "estimator time is not judged across a controller measurement in which the system clock was stepped (stepping the time base re-bases estimator time by design)",
     ],
     profiles: Profiles::Both,
-    cases: |t| t.pick(3_000, 150_000),
+    cases: |t| t.pick(6_000, 200_000),
     budget_s: |t| t.pick(45, 400),
     run,
     min_nontrivial: 150,
